@@ -70,6 +70,24 @@ func (e *Engine) EnableStub(name, kind string) {
 			errv := c.E.newErrorString(c.St, StrC("condition was not met"))
 			return c.Outcomes(c.sol2(), []Outcome{{Cond: all, Ret: Iface{}}, {Cond: Not(all), Ret: errv}})
 		}
+	case "subst-cmd":
+		// dag.substituteCommands(input): an I/O shell (runs every `...` segment through
+		// os/exec). Summary: no backtick segment => (input, nil), nothing executed;
+		// otherwise a ghost "exec" event and an arbitrary (string, error).
+		e.Intr[full] = func(c *Call) []*State {
+			in := c.argTerm(0)
+			m := StrInRe(in, Raw(SRegLan, 0, "(re.++ re.all (str.to_re \"`\") (re.+ (re.diff re.allchar (str.to_re \"`\"))) (str.to_re \"`\") re.all)"))
+			out := FreshVar("subst.out", SString, 0)
+			ok := FreshVar("subst.ok", SBool, 0)
+			c.St.Nondets = append(c.St.Nondets, NondetRec{Tag: "subst.ok", Kind: "bool", Term: ok})
+			errv := c.E.newErrorString(c.St, StrC("exec: command failed"))
+			ev := func(s *State) { s.Events = append(s.Events, Event{Kind: "exec", Args: []Value{in}, Thr: c.Th.ID}) }
+			return c.Outcomes(c.sol2(), []Outcome{
+				{Cond: Not(m), Ret: Tuple{in, Iface{}}},
+				{Cond: And(m, ok), Ret: Tuple{out, Iface{}}, Eff: ev},
+				{Cond: And(m, Not(ok)), Ret: Tuple{StrC(""), errv}, Eff: ev},
+			})
+		}
 	default:
 		panic("unknown stub kind " + kind)
 	}
